@@ -511,3 +511,13 @@ PROPS["C01"]["stages"].append(dict(name="conform-env", driver="conform", flavour
 PROPS["C01"]["rule"] += ("; environment-conformance stage (binds the file-system model under all VFS-based checks to the kernel): ALL sequences of <= 4 -> 5 calls over 22 file-system calls "
                          "(open variants, write, read, fsync, close, rename, unlink, link, mkdir, rmdir, access, stat, lseek) give the same return values, errno and final tree on harness/vfs.c and on tmpfs; "
                          "ALL lcdb histories of <= 2 -> 3 operations give the same statuses, reads and byte-identical database files on both")
+
+# C06 "for as long as the snapshot is held, regardless of later writes ...": a snapshot taken while a write is in flight,
+# held across the completion of that write, a flush and a compaction, and re-read through lookups and an iterator
+PROPS["C06"]["stages"].append(dict(name="mc-held", driver="mc", flavour="asan", args=["--prop", "C06"], weight=0.4,
+                                   quick=["--scenarios", "D18,D18f,D10", "--bound", "2"],
+                                   thorough=["--scenarios", "D18,D18f,D10,D5", "--bound", "3"]))
+PROPS["C06"]["rule"] += ("; concurrent stage: a snapshot taken at any point of an in-flight batch write (overwrite + delete), of a memtable switch and of a manual compaction (scenarios D18, D18f; snapshot churn D10, D5) "
+                         "is held while those complete, every schedule within 2 -> 3 deviations: lookups and an iterator through the SAME snapshot return what it first showed, and that view is one point of a sequential order")
+PROPS["C06"]["assumptions"] = PROPS["C06"]["assumptions"] + E1_ASSUME[:3]
+PROPS["C06"]["technique"] += "; plus stateless schedule exploration of held snapshots racing writes, flushes and compactions"
